@@ -16,15 +16,6 @@ Lemma abort_quiet c t b : op_quiet c (abort c t b).
 Proof. unfold abort. destruct (serialize _); split; reflexivity. Qed.
 Lemma send_message_quiet c m : op_quiet c (send_message c m).
 Proof. unfold send_message. destruct (serialize _); split; reflexivity. Qed.
-Lemma check_critical_options_quiet : forall os c, op_quiet c (check_critical_options c os).
-Proof.
-  induction os as [|[n v] r IH]; intros c; [split; reflexivity|].
-  cbn [check_critical_options]. destruct (is_critical n); [|apply IH].
-  pose proof (abort_quiet c txt_unknown_critical_option None) as Ha.
-  destruct (abort c _ None) as [[c1 o1] ok]. destruct Ha as [A1 A2]. destruct ok; [|split; assumption].
-  specialize (IH c1). destruct (check_critical_options c1 r) as [[c2 o2] ok2]. destruct IH as [I1 I2].
-  split; [congruence|apply nodisp_app; assumption].
-Qed.
 Lemma process_csm_options_quiet : forall os c st,
   let '(c1, st1, o, ok) := process_csm_options c st os in remote_settings c1 = remote_settings c /\ nodisp o.
 Proof.
@@ -32,9 +23,7 @@ Proof.
   cbn [process_csm_options]. destruct (n =? 2); [apply IH|]. destruct (n =? 4); [apply IH|].
   destruct (is_critical n); [|apply IH].
   pose proof (abort_quiet c txt_option_not_supported (Some n)) as Ha.
-  destruct (abort c _ (Some n)) as [[c1 o1] ok]. destruct Ha as [A1 A2]. destruct ok; [|split; assumption].
-  specialize (IH c1 st). destruct (process_csm_options c1 st r) as [[[c2 s2] o2] ok2]. destruct IH as [I1 I2].
-  split; [congruence|apply nodisp_app; assumption].
+  destruct (abort c _ (Some n)) as [[c1 o1] ok]. exact Ha.
 Qed.
 
 Lemma process_signaling_gate c m :
@@ -45,15 +34,15 @@ Proof.
       match remote_settings c with Some s => s | None => {| max_message_size := None; block_wise_transfer := false |} end) as H.
     destruct (process_csm_options c _ (opts m)) as [[[c1 s1] o] ok]. destruct H as [_ H2]. split; [reflexivity|exact H2]. }
   destruct ((code m =? PING) || (code m =? PONG) || (code m =? RELEASE) || (code m =? ABORT)).
-  { pose proof (check_critical_options_quiet (opts m) c) as H.
-    destruct (check_critical_options c (opts m)) as [[c1 o1] ok]. destruct H as [H1 H2].
-    assert (Hs : sset c = true -> sset c1 = true) by (unfold sset; rewrite H1; auto).
-    destruct ok; cbn [negb]; [|split; assumption].
+  { destruct (has_critical (opts m)).
+    { pose proof (abort_quiet c txt_unknown_critical_option None) as Ha.
+      destruct (abort c _ None) as [[c1 o1] ok]. destruct Ha as [A1 A2].
+      split; [unfold sset; rewrite A1; auto|exact A2]. }
     destruct (code m =? PING).
-    { pose proof (send_message_quiet c1 {| code := PONG; token := token m; opts := []; payload := [] |}) as Hq.
-      destruct (send_message c1 _) as [[c2 o2] ok2]. destruct Hq as [Q1 Q2].
-      split; [unfold sset in *; rewrite Q1; exact Hs|apply nodisp_app; assumption]. }
-    destruct (code m =? PONG); [split; assumption|]. destruct (code m =? RELEASE); split; assumption. }
+    { pose proof (send_message_quiet c {| code := PONG; token := token m; opts := []; payload := [] |}) as Hq.
+      destruct (send_message c _) as [[c2 o2] ok2]. destruct Hq as [Q1 Q2].
+      split; [unfold sset; rewrite Q1; auto|exact Q2]. }
+    destruct (code m =? PONG); [split; [auto|reflexivity]|]. destruct (code m =? RELEASE); split; auto; reflexivity. }
   pose proof (abort_quiet c txt_unknown_signalling_code None) as Ha.
   destruct (abort c _ None) as [[c1 o1] ok]. destruct Ha as [A1 A2].
   split; [unfold sset; rewrite A1; auto|exact A2].
@@ -72,8 +61,9 @@ Proof.
   { pose proof (process_signaling_gate (set_spool c r) m) as H.
     destruct (process_signaling (set_spool c r) m) as [[c1 o1] res]. destruct H as [H1 H2].
     change (sset (set_spool c r)) with (sset c) in H1.
-    destruct res; split; auto.
-    intros _. apply nodisp_app; [exact H2|reflexivity]. }
+    destruct res; try (split; auto; fail).
+    - destruct (closed c1); split; auto.
+    - split; auto. intros _. apply nodisp_app; [exact H2|reflexivity]. }
   change (remote_settings (set_spool c r)) with (remote_settings c).
   destruct (remote_settings c) eqn:Hs.
   { split; [auto|]. unfold sset. cbn. rewrite Hs. discriminate. }
@@ -147,4 +137,109 @@ Proof.
   - intros Hc. destruct (remote_settings c); [|congruence]. specialize (H1 eq_refl).
     destruct (remote_settings c1); [discriminate|discriminate].
   - intros Hc. apply H2. rewrite Hc. reflexivity.
+Qed.
+
+(* ---------------------------------------------------------------- nothing happens after a close() *)
+Lemma abort_close_last c t b : let '(c1, o, _) := abort c t b in upto_close o = o.
+Proof. unfold abort. destruct (serialize _); reflexivity. Qed.
+Lemma send_close_last c m : let '(c1, o, _) := send_message c m in upto_close o = o /\ has_close o = false.
+Proof. unfold send_message. destruct (serialize _); split; reflexivity. Qed.
+Lemma csm_close_last : forall os c st, let '(c1, s1, o, _) := process_csm_options c st os in upto_close o = o.
+Proof.
+  induction os as [|[n v] r IH]; intros c st; [reflexivity|].
+  cbn [process_csm_options]. destruct (n =? 2); [apply IH|]. destruct (n =? 4); [apply IH|].
+  destruct (is_critical n); [|apply IH].
+  pose proof (abort_close_last c txt_option_not_supported (Some n)) as Ha.
+  destruct (abort c _ (Some n)) as [[c1 o1] ok]. exact Ha.
+Qed.
+Lemma signaling_close_last c m :
+  let '(c1, o, res) := process_signaling c m in upto_close o = o /\ (forall e, res = SClose e -> has_close o = false).
+Proof.
+  unfold process_signaling. destruct (code m =? CSM).
+  { pose proof (csm_close_last (opts m) c
+      match remote_settings c with Some s => s | None => {| max_message_size := None; block_wise_transfer := false |} end) as H.
+    destruct (process_csm_options c _ (opts m)) as [[[c1 s1] o] ok]. split; [exact H|]. intros e. destruct ok; discriminate. }
+  destruct ((code m =? PING) || (code m =? PONG) || (code m =? RELEASE) || (code m =? ABORT)).
+  { destruct (has_critical (opts m)).
+    { pose proof (abort_close_last c txt_unknown_critical_option None) as Ha.
+      destruct (abort c _ None) as [[c1 o1] ok]. split; [exact Ha|]. intros e. destruct ok; discriminate. }
+    destruct (code m =? PING).
+    { pose proof (send_close_last c {| code := PONG; token := token m; opts := []; payload := [] |}) as Hs.
+      destruct (send_message c _) as [[c2 o2] ok2]. destruct Hs as [S1 S2]. split; [exact S1|]. intros; exact S2. }
+    destruct (code m =? PONG); [split; [reflexivity|discriminate]|].
+    destruct (code m =? RELEASE); split; reflexivity. }
+  pose proof (abort_close_last c txt_unknown_signalling_code None) as Ha.
+  destruct (abort c _ None) as [[c1 o1] ok]. split; [exact Ha|]. intros e. destruct ok; discriminate.
+Qed.
+
+Lemma frame_stop_close_last c f r c1 o1 : frame_step c f r = FStop c1 o1 -> upto_close o1 = o1.
+Proof.
+  unfold frame_step. destruct (decode_message f) as [m|e].
+  2:{ destruct e; intros H; inv H; reflexivity. }
+  destruct (is_signalling (code m)).
+  { pose proof (signaling_close_last (set_spool c r) m) as Hs.
+    destruct (process_signaling (set_spool c r) m) as [[c2 o2] res]. destruct Hs as [S1 S2].
+    destruct res.
+    - destruct (closed c2); intros H; inv H. exact S1.
+    - intros H; inv H. rewrite upto_close_app_no by (apply (S2 e); reflexivity). reflexivity.
+    - intros H; inv H. exact S1. }
+  destruct (remote_settings (set_spool c r)); [discriminate|].
+  pose proof (abort_close_last (set_spool c r) txt_no_csm None) as Ha.
+  destruct (abort (set_spool c r) _ None) as [[c2 o2] ok]. intros H; inv H. exact Ha.
+Qed.
+
+Lemma loop_close_last : forall n c, (length (spool c) < n)%nat -> bytes_ok (spool c) = true -> closed c = false ->
+  let '(c1, o1, _) := loop' c in upto_close o1 = o1.
+Proof.
+  induction n as [|n IH]; intros c Hn Hok Hcl; [lia|].
+  rewrite (loop'_unfold c Hok). unfold view_body.
+  destruct (view_of _ (spool c)) as [| |f r] eqn:V; [reflexivity| |].
+  - pose proof (abort_close_last c txt_overly_large None) as Ha. destruct (abort c _ None) as [[c1 o1] ok]. exact Ha.
+  - destruct (view_frame_facts _ _ _ _ Hok V) as (_ & Hlen & _ & Hrok & _).
+    pose proof (frame_step_post c f r) as FP.
+    destruct (frame_step c f r) as [c1 o1|c1 o1] eqn:FS; [exact (frame_stop_close_last _ _ _ _ _ FS)|].
+    destruct FP as (F1 & F2 & F3 & F4 & F5).
+    specialize (IH c1 ltac:(rewrite F3; lia) ltac:(rewrite F3; exact Hrok) (F5 Hcl)).
+    destruct (loop' c1) as [[c2 o2] k].
+    rewrite (F5 Hcl), Hcl in F1. cbn [orb] in F1.
+    rewrite upto_close_app_no by congruence. rewrite IH. reflexivity.
+Qed.
+
+(* within one data_received call on an open connection, a close() of the transport is the last thing that happens *)
+Lemma data_received_close_last c d : closed c = false -> bytes_ok (spool c) = true -> bytes_ok d = true ->
+  upto_close (snd (data_received c d)) = snd (data_received c d).
+Proof.
+  intros Hcl Hok Hd. unfold data_received. rewrite data_received_ctl_loop'.
+  assert (Hok' : bytes_ok (spool (feed c d)) = true) by (cbn; rewrite bytes_ok_app, Hok, Hd; reflexivity).
+  pose proof (loop_close_last (S (length (spool (feed c d)))) (feed c d) ltac:(lia) Hok' Hcl) as H.
+  destruct (loop' (feed c d)) as [[c1 o1] k]. exact H.
+Qed.
+
+Lemma run_data_close_last : forall l c, closed c = false -> bytes_ok (spool c) = true ->
+  Forall (fun x => bytes_ok x = true) l -> upto_close (snd (run c (map EData l))) = snd (run c (map EData l)).
+Proof.
+  induction l as [|d l IH]; intros c Hcl Hok Hl; [reflexivity|].
+  inversion Hl as [|? ? Hd Hl']; subst. cbn [map]. rewrite run_cons. cbn [step]. rewrite Hcl.
+  pose proof (data_received_close_last c d Hcl Hok Hd) as HL.
+  pose proof (data_received_post c d Hok Hd) as HP.
+  unfold data_received in *. destruct (data_received_ctl c d) as [[c1 o1] k]. cbn [snd] in HL.
+  destruct HP as (P1 & _ & _ & P4 & _). rewrite Hcl in P1. cbn [orb] in P1.
+  destruct (existsb is_escaped o1); [exact HL|].
+  destruct (closed c1) eqn:Hc1.
+  - rewrite run_closed_data by exact Hc1. cbn [snd]. rewrite app_nil_r. exact HL.
+  - specialize (IH c1 Hc1 P4 Hl'). destruct (run c1 (map EData l)) as [c2 o2]. cbn [snd] in *.
+    rewrite upto_close_app_no by congruence. rewrite IH. reflexivity.
+Qed.
+
+(* hence segmentation independence holds for the complete outputs *)
+Lemma chunking_exact : forall rest c d, closed c = false -> bytes_ok (spool c) = true ->
+  bytes_ok d = true -> Forall (fun x => bytes_ok x = true) rest ->
+  snd (run c (map EData (d :: rest))) = snd (data_received c (concat (d :: rest))).
+Proof.
+  intros rest c d Hcl Hok Hd Hrest.
+  rewrite <- (run_data_close_last (d :: rest) c Hcl Hok (Forall_cons _ Hd Hrest)).
+  rewrite chunking_nonempty by assumption.
+  apply data_received_close_last; [assumption|assumption|].
+  assert (Hall : Forall (fun x => bytes_ok x = true) (d :: rest)) by (constructor; assumption).
+  clear -Hall. induction Hall as [|x l Hx Hl IHl]; [reflexivity|]. cbn [concat]. rewrite bytes_ok_app, Hx, IHl. reflexivity.
 Qed.
